@@ -11,10 +11,10 @@ for d in sorted(glob.glob('/verif/seeded/*')):
   checks = ran.get('checks', {})
   det = ', '.join('%s (%d)' % (c, v.get('violations', 0)) for c, v in sorted(checks.items()) if v.get('violations'))
   missed = ', '.join(c for c, v in sorted(checks.items()) if not v.get('violations'))
-  summ = (m.get('summary') or '').replace('\n', ' ')
+  summ = (m.get('summary') or '').replace('\n', ' ').replace('|', '/')
   if len(summ) > 150:
     summ = summ[:147] + '...'
-  need = (m.get('needs_to_manifest') or '').replace('\n', ' ')
+  need = (m.get('needs_to_manifest') or '').replace('\n', ' ').replace('|', '/')
   if len(need) > 120:
     need = need[:117] + '...'
   rows.append('| %s | %s | %s | %s | %s | %s/%s |' % (
